@@ -99,6 +99,9 @@ fn programs(tier: Tier) -> Vec<Prog> {
             add("PackedEncodings.json", c.code.clone(), 1);
         } else if c.name.starts_with("SimpleContract") {
             add("SimpleContract.json", c.code.clone(), if tier.thorough() { 1 } else { 7 });
+        } else if tier.thorough() && c.code.len() <= 2000 {
+            // further small shipped contracts, stratified (every k <= 200, then every 13th)
+            add(&c.name.clone(), c.code.clone(), 13);
         }
     }
     v
